@@ -33,6 +33,7 @@ RULE += (' Also: the handle as one of several inputs of a tool at every position
 RULE += (' Also: scopes over borrowed handles left by an Exception / BaseException raised in the block.')
 RULE += (' Also: a front-end iterator whose __aiter__ hands out the inner iterator shared with its owner.')
 RULE += (' Also: a refused re-entry of the active scope context inside the block; a stale-group poll tool.')
+RULE += (' Also: a tool running a groupby whose key fails once over the borrowed handle.')
 ASSUMPTIONS = ["laziness of the tools themselves is C05's concern; here the stdlib twin predicts how many items a tool takes",
                "athrow is not part of the property's operation list and is not generated"]
 EXHAUSTIVE_SUBSPACES = 'all histories of length <= 3 (thorough: 4) over a 13-operation alphabet'
@@ -71,6 +72,64 @@ def _failing(after, impl):
         return impl(*args)
 
     return fn
+
+
+def _key_failing_once():
+    state = {"n": 0}
+
+    def key(x):
+        state["n"] += 1
+        if state["n"] == 2:
+            raise LookupError("the key fails once")
+        return x.key % 2
+    return key
+
+
+async def _gb_keyfail_async(h):
+    # a groupby whose key fails ONCE; the consumer carries on with the same group and the groupby: the item whose key
+    # could not be computed is dropped (itertools), every later reader of the shared iterator starts where it should
+    gb = A.groupby(h, key=_key_failing_once())
+    out = []
+    try:
+        k, g = await gb.__anext__()
+        out.append(k)
+        for _ in range(3):
+            try:
+                out.append(_uid(await A.anext(g, "END")))
+            except LookupError:
+                out.append("ERR")
+        try:
+            out.append((await gb.__anext__())[0])
+        except LookupError:
+            out.append("ERR")
+    except StopAsyncIteration:
+        out.append("STOP")
+    except LookupError:
+        out.append("ERR-first")
+    await gb.aclose()
+    return tuple(out)
+
+
+def _gb_keyfail_sync(it):
+    gb = itertools.groupby(it, key=_key_failing_once())
+    out = []
+    try:
+        k, g = next(gb)
+        out.append(k)
+        for _ in range(3):
+            try:
+                out.append(_uid(next(g, "END")))
+            except LookupError:
+                out.append("ERR")
+        try:
+            out.append(next(gb)[0])
+        except LookupError:
+            out.append("ERR")
+    except StopIteration:
+        out.append("STOP")
+    except LookupError:
+        out.append("ERR-first")
+    return tuple(out)
 
 
 async def _gb_stale_async(h):
@@ -162,6 +221,7 @@ TOOLS = {
     "groupby_keys": ("iter", lambda h: A.map(lambda kg: kg[0], A.groupby(h)), lambda it: map(lambda kg: kg[0], itertools.groupby(it))),
     # groupby used the awkward way: a second group is started and read, then the FIRST (now stale) group is polled -
     # it must find out that it is stale without taking anything from the shared iterator
+    "groupby_key_fails_once": ("agg", lambda h: _gb_keyfail_async(h), lambda it: _gb_keyfail_sync(it)),
     "groupby_stale_poll": ("agg", lambda h: _gb_stale_async(h), lambda it: _gb_stale_sync(it)),
     "list": ("agg", lambda h: A.list(h), lambda it: list(it)),
     "any": ("agg", lambda h: A.any(h), lambda it: any(it)),
